@@ -5,6 +5,7 @@
 #define VF_MAXSZ 7
 #define VF_INPUTS(X) X(unsigned char, cfg, [2]) X(unsigned char, s, [3])
 #include "vf.h"
+#include "vf_str.h"
 #include "vf_mem.h"
 static long libc_m, libc_f, libc_r, user_m, user_f;
 static void *libc_malloc(size_t n) { libc_m++; return vf_malloc(n); }
